@@ -109,6 +109,10 @@ func wantCond(k *model.KV, name string, v uint32, allowed bool) getOut {
 }
 
 func checkC09(t *testing.T, env *report.Env, rep *report.Report) {
+	c09Concurrent(t, env, rep)
+	if env.Replay != "" {
+		return
+	}
 	depth := 4
 	if env.Thorough() {
 		depth = 7
